@@ -81,7 +81,7 @@ Definition RSetExact (r : resp) (key value : bytes) : resp :=
     end
   else if beq key strContentEncoding then RSetContentEncodingBytes r value
   else if beq key strConnection then
-    (if beq strClose value then with_rh r (with_hh (hSetConnectionClose (rh r)) (delAllArgsStable (hh (rh r)) key))
+    (if hasHeaderValue value strClose then with_rh r (with_hh (hSetConnectionClose (rh r)) (delAllArgsStable (hh (rh r)) key))
      else with_rh r (hsetNonSpecial (hResetConnectionClose (rh r)) key value))
   else if beq key strServer then RSetServerBytes r value
   else if beq key strSetCookie then with_rh r (with_hcookies (rh r) (hcookies (rh r) ++ [(getCookieKey value, value)]))
@@ -118,9 +118,9 @@ Lemma RSetCanonical_exact r c v :
 Proof.
   intros Hok. unfold RSetCanonical, RSetExact.
   destruct (beq c strContentType) eqn:E1; [apply beq_eq in E1; subst; reflexivity|].
-  destruct (beq c strContentLength) eqn:E2; [apply beq_eq in E2; subst; cbn -[beq parseContentLength initHeaderValueBytes]; destruct (parseContentLength _); reflexivity|].
+  destruct (beq c strContentLength) eqn:E2; [apply beq_eq in E2; subst; cbn -[beq parseContentLength initHeaderValueBytes hasHeaderValue]; destruct (parseContentLength _); reflexivity|].
   destruct (beq c strContentEncoding) eqn:E3; [apply beq_eq in E3; subst; reflexivity|].
-  destruct (beq c strConnection) eqn:E4; [apply beq_eq in E4; subst; cbn -[beq parseContentLength initHeaderValueBytes]; destruct (beq strClose _); reflexivity|].
+  destruct (beq c strConnection) eqn:E4; [apply beq_eq in E4; subst; cbn -[beq parseContentLength initHeaderValueBytes hasHeaderValue]; destruct (hasHeaderValue _ strClose); reflexivity|].
   destruct (beq c strServer) eqn:E5; [apply beq_eq in E5; subst; reflexivity|].
   destruct (beq c strSetCookie) eqn:E6; [apply beq_eq in E6; subst; reflexivity|].
   destruct (beq c strTransferEncoding) eqn:E7; [apply beq_eq in E7; subst; reflexivity|].
@@ -134,7 +134,7 @@ Lemma RsetSpecial_some r X v : In X rspecials -> exists r', RsetSpecialHeader r 
 Proof.
   intros Hin. cbn in Hin.
   repeat (destruct Hin as [<-|Hin];
-          [cbn -[beq parseContentLength initHeaderValueBytes];
+          [cbn -[beq parseContentLength initHeaderValueBytes hasHeaderValue];
            repeat match goal with |- context[match ?x with _ => _ end] => destruct x end; eexists; reflexivity|]).
   contradiction.
 Qed.
@@ -194,14 +194,14 @@ Proof.
   { subst c. unfold rvals. beq_case c' strContentType F1; [reflexivity|]. rewrite (beq_ne_false _ _ Hne). reflexivity. }
   beq_case c strConnection E4.
   { subst c. unfold rvals.
-    beq_case c' strContentType F1. { destruct (beq strClose v); [reflexivity|]. cbn. unfold hResetConnectionClose. destruct (hclose (rh r)); reflexivity. }
-    beq_case c' strContentEncoding F2. { destruct (beq strClose v); reflexivity. }
-    beq_case c' strServer F3. { destruct (beq strClose v); reflexivity. }
+    beq_case c' strContentType F1. { destruct (hasHeaderValue v strClose); [reflexivity|]. cbn. unfold hResetConnectionClose. destruct (hclose (rh r)); reflexivity. }
+    beq_case c' strContentEncoding F2. { destruct (hasHeaderValue v strClose); reflexivity. }
+    beq_case c' strServer F3. { destruct (hasHeaderValue v strClose); reflexivity. }
     rewrite (beq_ne_false _ _ Hne).
-    beq_case c' strContentLength F5. { destruct (beq strClose v); [reflexivity|]. cbn. unfold hResetConnectionClose. destruct (hclose (rh r)); reflexivity. }
-    beq_case c' strSetCookie F6. { destruct (beq strClose v); [reflexivity|]. cbn. unfold hResetConnectionClose. destruct (hclose (rh r)); reflexivity. }
-    beq_case c' strTrailer F7. { destruct (beq strClose v); [reflexivity|]. cbn. unfold hResetConnectionClose. destruct (hclose (rh r)); reflexivity. }
-    destruct (beq strClose v); [cbn; apply peekAll_del_other; assumption|]. cbn. unfold hResetConnectionClose.
+    beq_case c' strContentLength F5. { destruct (hasHeaderValue v strClose); [reflexivity|]. cbn. unfold hResetConnectionClose. destruct (hclose (rh r)); reflexivity. }
+    beq_case c' strSetCookie F6. { destruct (hasHeaderValue v strClose); [reflexivity|]. cbn. unfold hResetConnectionClose. destruct (hclose (rh r)); reflexivity. }
+    beq_case c' strTrailer F7. { destruct (hasHeaderValue v strClose); [reflexivity|]. cbn. unfold hResetConnectionClose. destruct (hclose (rh r)); reflexivity. }
+    destruct (hasHeaderValue v strClose); [cbn; apply peekAll_del_other; assumption|]. cbn. unfold hResetConnectionClose.
     destruct (hclose (rh r)); cbn; rewrite peekAll_set_other by assumption; [apply peekAll_del_other; assumption|reflexivity]. }
   beq_case c strServer E5.
   { subst c. unfold rvals. beq_case c' strContentType F1; [reflexivity|]. beq_case c' strContentEncoding F2; [reflexivity|].
@@ -303,9 +303,9 @@ Proof.
 Qed.
 Lemma rvals_set_conn r v :
   rvals (RSetExact r strConnection v) strConnection =
-  if beq strClose v then [strClose] else set_first v (rvals r strConnection).
+  if hasHeaderValue v strClose then [strClose] else set_first v (rvals r strConnection).
 Proof.
-  unfold RSetExact. cbn -[beq]. destruct (beq strClose v) eqn:E; [reflexivity|].
+  unfold RSetExact. cbn -[beq hasHeaderValue]. destruct (hasHeaderValue v strClose) eqn:E; [reflexivity|].
   unfold rvals, hsetNonSpecial, hResetConnectionClose. cbn.
   destruct (hclose (rh r)) eqn:Hc; cbn; rewrite ?Hc; rewrite peekAll_set_same; [rewrite peekAll_del_same|]; reflexivity.
 Qed.
@@ -344,7 +344,7 @@ Definition QSetExact (q : req) (key value : bytes) : req :=
     | None => q
     end
   else if beq key strConnection then
-    (if beq strClose value then with_qh q (with_hh (hSetConnectionClose (qh q)) (delAllArgsStable (hh (qh q)) key))
+    (if hasHeaderValue value strClose then with_qh q (with_hh (hSetConnectionClose (qh q)) (delAllArgsStable (hh (qh q)) key))
      else with_qh q (hsetNonSpecial (hResetConnectionClose (qh q)) key value))
   else if beq key strCookie then
     (let q := collectCookies q in with_qh q (with_hcookies (qh q) (prc (hcookies (qh q)) value)))
@@ -377,9 +377,9 @@ Proof.
   intros Hds Hok. unfold QSetCanonical, QSetExact.
   beq_caseq c strContentType E1; [subst; unfold QsetSpecialHeader; rewrite Hds; reflexivity|].
   beq_caseq c strContentLength E2;
-    [subst; unfold QsetSpecialHeader; rewrite Hds; cbn -[beq parseContentLength initHeaderValueBytes]; destruct (parseContentLength _); reflexivity|].
+    [subst; unfold QsetSpecialHeader; rewrite Hds; cbn -[beq parseContentLength initHeaderValueBytes hasHeaderValue]; destruct (parseContentLength _); reflexivity|].
   beq_caseq c strConnection E4;
-    [subst; unfold QsetSpecialHeader; rewrite Hds; cbn -[beq parseContentLength initHeaderValueBytes]; destruct (beq strClose _); reflexivity|].
+    [subst; unfold QsetSpecialHeader; rewrite Hds; cbn -[beq parseContentLength initHeaderValueBytes hasHeaderValue]; destruct (hasHeaderValue _ strClose); reflexivity|].
   beq_caseq c strCookie E5; [subst; unfold QsetSpecialHeader; rewrite Hds; reflexivity|].
   beq_caseq c strTransferEncoding E6; [subst; unfold QsetSpecialHeader; rewrite Hds; reflexivity|].
   beq_caseq c strTrailer E7; [subst; unfold QsetSpecialHeader; rewrite Hds; reflexivity|].
@@ -393,7 +393,7 @@ Lemma QsetSpecial_some q X v : qdisableSpecial q = false -> In X qspecials -> ex
 Proof.
   intros Hds Hin. cbn in Hin.
   repeat (destruct Hin as [<-|Hin];
-          [unfold QsetSpecialHeader; rewrite Hds; cbn -[beq parseContentLength initHeaderValueBytes collectCookies];
+          [unfold QsetSpecialHeader; rewrite Hds; cbn -[beq parseContentLength initHeaderValueBytes collectCookies hasHeaderValue];
            repeat match goal with |- context[match ?x with _ => _ end] => destruct x end; eexists; reflexivity|]).
   contradiction.
 Qed.
@@ -456,14 +456,14 @@ Proof.
     - apply peekAll_del_other. now apply beq_false_ne. }
   beq_case c strConnection E4.
   { subst c. unfold qvals.
-    beq_case c' strHost F0. { destruct (beq strClose v); [reflexivity|]. cbn. unfold hResetConnectionClose. destruct (hclose (qh q)); reflexivity. }
-    beq_case c' strContentType F1. { destruct (beq strClose v); [reflexivity|]. cbn. unfold hResetConnectionClose. destruct (hclose (qh q)); reflexivity. }
-    beq_case c' strUserAgent F2. { destruct (beq strClose v); [reflexivity|]. cbn. unfold hResetConnectionClose. destruct (hclose (qh q)); reflexivity. }
+    beq_case c' strHost F0. { destruct (hasHeaderValue v strClose); [reflexivity|]. cbn. unfold hResetConnectionClose. destruct (hclose (qh q)); reflexivity. }
+    beq_case c' strContentType F1. { destruct (hasHeaderValue v strClose); [reflexivity|]. cbn. unfold hResetConnectionClose. destruct (hclose (qh q)); reflexivity. }
+    beq_case c' strUserAgent F2. { destruct (hasHeaderValue v strClose); [reflexivity|]. cbn. unfold hResetConnectionClose. destruct (hclose (qh q)); reflexivity. }
     rewrite (beq_ne_false _ _ Hne).
-    beq_case c' strContentLength F5. { destruct (beq strClose v); [reflexivity|]. cbn. unfold hResetConnectionClose. destruct (hclose (qh q)); reflexivity. }
-    beq_case c' strCookie F6. { destruct (beq strClose v); [reflexivity|]. cbn. unfold hResetConnectionClose. destruct (hclose (qh q)); reflexivity. }
-    beq_case c' strTrailer F7. { destruct (beq strClose v); [reflexivity|]. cbn. unfold hResetConnectionClose. destruct (hclose (qh q)); reflexivity. }
-    destruct (beq strClose v); [cbn; apply peekAll_del_other; assumption|]. cbn. unfold hResetConnectionClose.
+    beq_case c' strContentLength F5. { destruct (hasHeaderValue v strClose); [reflexivity|]. cbn. unfold hResetConnectionClose. destruct (hclose (qh q)); reflexivity. }
+    beq_case c' strCookie F6. { destruct (hasHeaderValue v strClose); [reflexivity|]. cbn. unfold hResetConnectionClose. destruct (hclose (qh q)); reflexivity. }
+    beq_case c' strTrailer F7. { destruct (hasHeaderValue v strClose); [reflexivity|]. cbn. unfold hResetConnectionClose. destruct (hclose (qh q)); reflexivity. }
+    destruct (hasHeaderValue v strClose); [cbn; apply peekAll_del_other; assumption|]. cbn. unfold hResetConnectionClose.
     destruct (hclose (qh q)); cbn; rewrite peekAll_set_other by assumption; [apply peekAll_del_other; assumption|reflexivity]. }
   beq_case c strCookie E5.
   { subst c. destruct (collect_fields q Hnc) as (H1 & H2 & H3 & _ & _). cbv zeta. unfold qvals. cbn [qh with_qh qhost qua].
@@ -552,9 +552,9 @@ Proof.
 Qed.
 Lemma qvals_set_conn q v :
   qvals (QSetExact q strConnection v) strConnection =
-  if beq strClose v then [strClose] else set_first v (qvals q strConnection).
+  if hasHeaderValue v strClose then [strClose] else set_first v (qvals q strConnection).
 Proof.
-  unfold QSetExact. cbn -[beq]. destruct (beq strClose v) eqn:E; [reflexivity|].
+  unfold QSetExact. cbn -[beq hasHeaderValue]. destruct (hasHeaderValue v strClose) eqn:E; [reflexivity|].
   unfold qvals, hsetNonSpecial, hResetConnectionClose. cbn.
   destruct (hclose (qh q)) eqn:Hc; cbn; rewrite ?Hc; rewrite peekAll_set_same; [rewrite peekAll_del_same|]; reflexivity.
 Qed.
